@@ -230,6 +230,9 @@ def _single_request_and_result(ex, st, post, result):
     if ok:
         goal = z3.And(goal, eq(tb[0].args[-1], ex.opaque_field_at(st, tb[0], tile, 'coord')),
                       eq(mq[0].args[1], grid['tile_size']), eq(mq[0].args[2], grid['srs']))
+        # the FULL rectangle (not cut to the grid extent: it is rendered at the full tile size)
+        lim = tb[0].kwargs.get('limit')
+        goal = z3.And(goal, z3.Not(ex.truth(st, lim)) if lim is not None else z3.BoolVal(True))
     for e in qs:
         goal = z3.And(goal, z3.BoolVal(bool(mq) and e.args[-1] is mq[0].result))
     yield ('upstream_query_is_the_tile', goal,
